@@ -22,40 +22,68 @@ fn expect_bytes<const N: usize>(r: Option<([u8; N], usize, usize)>, want: &[u8],
 }
 
 harness!(
-    /// all i64 x 8 long-backed kinds, all i32 x 3 int-backed kinds: bytes == spec zig-zag varint.
-    ints, unwind = 12, {
+    /// all i64 under schema long: bytes == the specification's zig-zag varint.
+    long_, unwind = 12, {
     let names = no_names();
-    let wide = any_bool();
-    let kind = any_u8();
-    let n: i64 = if wide { any_i64() } else { any_i32() as i64 };
-    let (v, schema) = if wide {
-        assume(kind < 8);
-        match kind {
-            0 => (Value::Long(n), Schema::Long),
-            1 => (Value::TimeMicros(n), Schema::TimeMicros),
-            2 => (Value::TimestampMillis(n), Schema::TimestampMillis),
-            3 => (Value::TimestampMicros(n), Schema::TimestampMicros),
-            4 => (Value::TimestampNanos(n), Schema::TimestampNanos),
-            5 => (Value::LocalTimestampMillis(n), Schema::LocalTimestampMillis),
-            6 => (Value::LocalTimestampMicros(n), Schema::LocalTimestampMicros),
-            _ => (Value::LocalTimestampNanos(n), Schema::LocalTimestampNanos),
-        }
-    } else {
-        assume(kind < 3);
-        match kind {
-            0 => (Value::Int(n as i32), Schema::Int),
-            1 => (Value::Date(n as i32), Schema::Date),
-            _ => (Value::TimeMillis(n as i32), Schema::TimeMillis),
-        }
-    };
+    let n = any_i64();
+    let v = Value::Long(n);
+    let schema = Schema::Long;
     let mut want = [0u8; 10];
     let wl = spec::enc_long(n, &mut want);
     witness!(wl == 1, "1-byte varint");
-    witness!(wl == 5 && !wide, "5-byte int");
     witness!(wl == 10, "10-byte long");
     expect_bytes(run_enc::<10>(&v, &schema, &names), &want, wl);
-    leak(v);
-    leak(schema);
+    leak(names);
+});
+
+harness!(
+    /// all i32 under schema int.
+    int_, unwind = 12, {
+    let names = no_names();
+    let n = any_i32();
+    let v = Value::Int(n);
+    let schema = Schema::Int;
+    let mut want = [0u8; 10];
+    let wl = spec::enc_long(n as i64, &mut want);
+    witness!(wl == 5, "5-byte int");
+    expect_bytes(run_enc::<10>(&v, &schema, &names), &want, wl);
+    leak(names);
+});
+
+fn logical_case<const K: u8>(n: i64, names: &Names) {
+    let (v, schema) = match K {
+        0 => (Value::TimeMicros(n), Schema::TimeMicros),
+        1 => (Value::TimestampMillis(n), Schema::TimestampMillis),
+        2 => (Value::TimestampMicros(n), Schema::TimestampMicros),
+        3 => (Value::TimestampNanos(n), Schema::TimestampNanos),
+        4 => (Value::LocalTimestampMillis(n), Schema::LocalTimestampMillis),
+        5 => (Value::LocalTimestampMicros(n), Schema::LocalTimestampMicros),
+        6 => (Value::LocalTimestampNanos(n), Schema::LocalTimestampNanos),
+        7 => (Value::Date(n as i32), Schema::Date),
+        _ => (Value::TimeMillis(n as i32), Schema::TimeMillis),
+    };
+    let mut want = [0u8; 10];
+    let wl = spec::enc_long(n, &mut want);
+    expect_bytes(run_enc::<10>(&v, &schema, names), &want, wl);
+}
+
+harness!(
+    /// the 9 int/long-backed logical kinds, values in the two-byte varint range [-8192, 8191]
+    logical_kinds, unwind = 12, {
+    let names = no_names();
+    let n16 = any_i16();
+    assume(n16 >= -8192 && n16 <= 8191);
+    let n = n16 as i64;
+    logical_case::<0>(n, &names);
+    logical_case::<1>(n, &names);
+    logical_case::<2>(n, &names);
+    logical_case::<3>(n, &names);
+    logical_case::<4>(n, &names);
+    logical_case::<5>(n, &names);
+    logical_case::<6>(n, &names);
+    logical_case::<7>(n, &names);
+    logical_case::<8>(n, &names);
+    witness!(n == -8192, "lower end");
     leak(names);
 });
 
@@ -116,7 +144,7 @@ harness!(
             while i < len { want[1 + i] = d[i]; i += 1; }
             let s = match String::from_utf8(vec_upto4(d, len)) { Ok(s) => s, Err(e) => { leak(e); assert!(false, "reference UTF-8 predicate accepted what std rejects"); return; } };
             let v = Value::String(s);
-            witness!(len == 4 && d[0] >= 0xF0, "4-byte code point");
+            witness!(len >= 2 && d[0] >= 0xC2, "multi-byte code point");
             expect_bytes(run_enc::<8>(&v, &Schema::String, &names), &want, len + 1);
             leak(v);
         }
@@ -133,24 +161,48 @@ harness!(
     leak(names);
 });
 
+fn enum_case<const IDX: u32, const BY_STRING: bool>(schema: &Schema, names: &Names) {
+    let sym = ["a", "b", "c"][IDX as usize].to_string();
+    let v = if BY_STRING { Value::String(sym) } else { Value::Enum(IDX, sym) };
+    expect_bytes(run_enc::<4>(&v, schema, names), &[(IDX as u8) << 1], 1);
+    leak(v);
+}
 harness!(
     /// enum: Value::Enum(i, _) -> int i; Value::String(sym) under an enum schema -> its index.
     enum_, unwind = 8, {
     let names = no_names();
     let schema = crate::dec::enum3();
-    let idx = any_u32();
-    assume(idx < 3);
-    let sym = ["a", "b", "c"][idx as usize].to_string();
-    let by_string = any_bool();
-    let v = if by_string { Value::String(sym) } else { Value::Enum(idx, sym) };
-    expect_bytes(run_enc::<4>(&v, &schema, &names), &[(idx as u8) << 1], 1);
-    leak(v);
+    enum_case::<0, false>(&schema, &names);
+    enum_case::<1, false>(&schema, &names);
+    enum_case::<2, false>(&schema, &names);
+    enum_case::<0, true>(&schema, &names);
+    enum_case::<2, true>(&schema, &names);
     leak(schema);
     leak(names);
 });
 
+harness!(
+    /// reference lemma (no library code): spec decode of spec encode is the identity on all i64 and
+    /// consumes exactly the produced bytes.  With enc::* (library bytes == spec bytes) and dec::*
+    /// (library decode == spec decode on all byte strings) this closes the round-trip argument.
+    spec_varint_roundtrip, unwind = 12, {
+    let n = any_i64();
+    let mut b = [0u8; 10];
+    let l = spec::enc_long(n, &mut b);
+    match spec::dec_long(&b, l) {
+        Some((m, used)) => assert!(m == n && used == l, "reference encoder/decoder do not round-trip"),
+        None => assert!(false, "reference decoder rejects the reference encoder's output"),
+    }
+    if l > 1 {
+        assert!(spec::dec_long(&b, l - 1).is_none(), "a proper prefix of a varint decodes");
+    }
+});
+
 pub const HARNESSES: &[(&str, fn())] = &[
-    ("enc::ints", ints::body),
+    ("enc::long_", long_::body),
+    ("enc::int_", int_::body),
+    ("enc::logical_kinds", logical_kinds::body),
+    ("enc::spec_varint_roundtrip", spec_varint_roundtrip::body),
     ("enc::scalars", scalars::body),
     ("enc::bytes_string_fixed", bytes_string_fixed::body),
     ("enc::enum_", enum_::body),
